@@ -48,7 +48,7 @@ def run(ctx):
         sims = [("sim", dict(MaxNodes=12, GAlpha={1, -2, 3}, Ops=ALL, UseVec=True, MaxHist=12, MaxBackward=1, Acts={"op", "bw"},
                              InitLeaves=[dict(vec=False, rg=True), dict(vec=True, rg=True), dict(vec=False, rg=False)]), 20000)]
     for name, consts, limit in runs:
-        mx, table, c = AG.emit(rep, name, consts)
+        mx, table, c = AG.emit(rep, name, consts, limit=limit, seed=ctx.seed + 1, timeout=20000)
         AG.replay_all(ctx, rep, mx, table, c, KINDS, dtypes=(np.float32,) if ctx.quick else (np.float32, np.float64), label=name + ":", limit=limit)
     for name, consts, num in sims:
         mx, table, c = AG.emit(rep, name, consts, simulate="num=%d" % num, depth=60, seed=ctx.seed + 3, workers=1)
